@@ -96,7 +96,25 @@ def gen_echo_program(rng):
                     args[k][sorted(args[k])[0]] = "$none"      # None / a number / a boolean as a value (programming interface only)
                 elif args[k] and rng.random() < 0.1:
                     args[k][sorted(args[k])[0]] = rng.choice(["$num:7", "$num:2.5", "$true"])
-        cmds.append({"result": name, "cmd": "Echo", "args": args})
+        cmd = "Echo"
+        if rng.random() < 0.15:
+            # a command that takes undeclared arguments too: names that differ from declared ones in letter case only
+            cmd = "EchoX"
+            for k in rng.sample(["s", "n", "metadata", "tup", "Xtra", "lN", "b"], rng.randint(1, 3)):
+                args[k] = rng.choice(STR_POOL) if rng.random() < 0.6 else rng.choice(NUM_POOL)
+        cmds.append({"result": name, "cmd": cmd, "args": args})
+    if rng.random() < 0.15:
+        # result names that look like keywords or numbers' relatives (all of them identifiers)
+        new = rng.sample(["True", "False", "None", "class", "Float", "Integer", "inf", "nan", "_", "x1e5", "e5", "E", "true", "TRUE", "lambda", "Metadata"], len(cmds))
+        ren = {c["result"]: nm for c, nm in zip(cmds, new)}
+
+        def rn(x):
+            return [rn(i) for i in x] if isinstance(x, list) else ren.get(x, x)
+        for c in cmds:
+            c["result"] = ren[c["result"]]
+            for k in ("R", "LR", "LLR"):
+                if k in c["args"]:
+                    c["args"][k] = rn(c["args"][k])
     return cmds
 
 
@@ -125,7 +143,7 @@ def echo_ast(cmds, rng):
     for c in cmds:
         args = []
         for k, v in c["args"].items():
-            kind = ECHO_KINDS[k]
+            kind = ECHO_KINDS.get(k) or ("number" if isinstance(v, (int, float)) else "string")
             if kind == "boolean":
                 val = {"t": "ustr", "v": "True" if v in (True, "true", 1) and v is not False and v != 0 else ("False" if not isinstance(v, str) else v), "cls": "word"} if not isinstance(v, str) else {"t": "ustr", "v": v, "cls": "word"}
                 if isinstance(v, bool):
@@ -149,7 +167,7 @@ def echo_ast(cmds, rng):
                 val = models.value_ast(v, kind, None)
                 _force_quotes(val)
             args.append({"name": k, "value": val})
-        out.append({"result": c["result"], "command": "Echo", "args": args, "trail": False})
+        out.append({"result": c["result"], "command": c.get("cmd", "Echo"), "args": args, "trail": False})
     return {"commands": out}
 
 
@@ -169,8 +187,8 @@ def build(case, d):
             text = syntax.render(echo_ast(case["commands"], rng), rng, "wild")
             return Program.from_source(text, libraries=libs, working_dir=d), libs
         prog = Program(libraries=libs, working_dir=d)
-        cls = prog.find_command_class("Echo")
         for c in case["commands"]:
+            cls = prog.find_command_class(c.get("cmd", "Echo"))
             args = copy.deepcopy(c["args"])
             for k in ("N", "LN", "P"):
                 if k in args:
